@@ -428,6 +428,7 @@ func c07CellsFor(s *skeleton, withFixed bool) []c07Cell {
 			{"public-global-unqualified", "print(Shown)", false},
 			{"missing", "m.Missing()", false},
 			{"unknown-alias", "zz.Pub()", false},
+			{"unknown-alias-for-own-function", "print(zz.f(1))", false},
 			{"no-alias", "print(Pub())", false},
 			{"alias-as-variable", "print(m)", false},
 		} {
